@@ -270,6 +270,7 @@ type rawClient struct {
 	doneAt            time.Duration
 	stopped           bool
 	decoderPanicFrame string
+	unsolicited       string
 }
 
 func (w *serverWorld) runRawClient(sc *C08Sc, rc *rawClient) {
@@ -414,6 +415,14 @@ loop:
 				break
 			}
 		}
+		// nothing more is owed: half-close and drain; anything that still arrives is a response nobody asked for
+		if !rc.poison && !terminated && len(rc.got) == len(rc.obl) {
+			_ = conn.CloseWrite()
+			var extra kmip.ResponseMessage
+			if err := st.Recv(&extra); err == nil {
+				rc.unsolicited = respDesc(&extra)
+			}
+		}
 		if !terminated || !rc.stopped {
 			_ = conn.Close()
 		}
@@ -521,6 +530,9 @@ func execC08(x *X, scAny any) {
 		}
 		if faulted || rc.conn.Faulted {
 			continue // the network broke this connection: it is not a live connection any more
+		}
+		if rc.unsolicited != "" {
+			x.Reportf("C08.unsolicited-response", "extra", "client %d received a response beyond the %d it was owed: %s", rc.idx, len(rc.obl), rc.unsolicited)
 		}
 		if len(rc.got) < len(rc.obl) {
 			o := rc.obl[len(rc.got)]
